@@ -499,7 +499,8 @@ def represent_distance_matrix_rows_as_distributions(DX, max_d):
         DX + 1j * np.arange(len(DX))[:, None], return_counts=True)
     # Type is signed integer to allow subtractions.
     optimal_int_type = determine_optimal_int_type(len(DX))
-    DX_rows_distributons = np.zeros((len(DX), max_d + 1), dtype=optimal_int_type)
+    # (max_d is a NumPy scalar of the distance matrix's small dtype: max_d + 1 must not wrap)
+    DX_rows_distributons = np.zeros((len(DX), int(max_d) + 1), dtype=optimal_int_type)
     # Construct index pairs for distance frequencies, so that the
     # frequencies of larger distances appear on the left.
     distance_frequencies_index_pairs = \
@@ -600,6 +601,10 @@ def check_assignment_feasibility(v_distribution, u_distribution, d):
 
         return j
 
+    # The index arithmetic below must be done on Python integers: d arrives
+    # as a NumPy scalar of the distance matrix's small dtype and i + (d - 1)
+    # would wrap around (int8 for diameters up to 127).
+    d = int(d)
     # Copy to allow modifications and stay pure; reverse to be
     # compatible with distributions of different size.
     reversed_v_distribution = list(v_distribution[::-1])
